@@ -16,11 +16,11 @@ CLAIMED.update({
    "Trusted: symgo, z3. The Pull goroutine around include and List's itemSlice are covered under C04/C01 harnesses when present; here the decision kernel.",
    "SSA symbolic execution + SMT with uninterpreted predicate, native replay"),
  "C09": ("DESIGN.md 5/C09",
-   "mergeChanges on arbitrary consecutive valid changes (2 and 3 in a row) of one id against an arbitrary view; the mergeCollectionExcess and DropExcess goroutines executed in the symbolic concurrency runtime between a producer (K=3, thorough 4, valid events over two ids, then a sentinel) and a consumer receiving at every possible pace: fold equivalence, old-value chaining, in-order subsequence ending in the most recent message; a never-receiving subscriber never blocks writers; a stalled backpressured subscriber makes Value.Set fail when its (modelled) 5 s timeout fires instead of hanging.",
+   "mergeChanges on arbitrary consecutive valid changes (2 and 3 in a row) of one id against an arbitrary view; the mergeCollectionExcess and DropExcess goroutines executed in the symbolic concurrency runtime between a producer (K=4, thorough 5, valid events over two ids, then a sentinel) and a consumer receiving at every possible pace: fold equivalence, old-value chaining, in-order subsequence ending in the most recent message; a never-receiving subscriber never blocks writers; a stalled backpressured subscriber makes Value.Set fail when its (modelled) 5 s timeout fires instead of hanging.",
    "Trusted: symgo concurrency runtime (timers fire only when nothing else can run), z3. Wall-clock latency is outside the claim: 'without waiting' is checked as 'never blocked'.",
    "SSA symbolic execution with symbolic scheduler + SMT, native replay"),
  "C16": ("DESIGN.md 5/C16",
-   "cmp combinators with arbitrary (symbolic) comparer answers; FloatValueApprox in IEEE float64 (reflexive, symmetric), DurationValueWithin/TimeValueWithin on full 64-bit nanosecond values against a no-overflow reference; own-kind-only clause over the protobuf reflection model.",
+   "cmp combinators with arbitrary (symbolic) comparer answers; FloatValueApprox in IEEE float64 (reflexive, symmetric), DurationValueWithin/TimeValueWithin on full 64-bit nanosecond values against a no-overflow reference; own-kind-only clause and agreement of the default comparer with proto.Equal over the protobuf reflection model; resource-level de-duplication: Value.Pull / Collection.Pull with an exact, a NON-TRANSITIVE tolerance or no equivalence, with and without read mask, 2 (3) writes: delivered iff not equivalent to what the subscriber holds.",
    "Trusted: symgo + protobuf model over generated structs (validated by native replay), IEEE identities |x-y|=|y-x| and commutativity of math.Min/Max used for canonicalisation, durationpb/timestamppb ghost nanoseconds; instants within +-2^62 ns. Unknown fields outside the claim.",
    "SSA symbolic execution + SMT (FP and BV theories), native replay"),
  "C17": ("DESIGN.md 5/C17",
@@ -35,36 +35,36 @@ CLAIMED.update({
    "Plus C12-C: on every run symgo enumerates every generated router type of pkg/trait/* from the current tree's go/types, GENERATES a fake client and a harness per router (65 routers, ~150 methods) and executes every unary and server-streaming forwarder with a symbolic request name: exactly one call on the named client, same method, same request object, response/error/header/messages/trailer pass through, caller errors cancel the forwarded request, unknown names give NotFound and touch no client, and an RPC of the service descriptor without a forwarder (only promoted from Unimplemented...Server) is a violation. Trusted: symgo (+ concurrency runtime, protobuf model), z3; native validation of the generated harnesses is sampled (6 packages per run, rotated by seed, plus every package with a counterexample). Outside: the *_wrap.pb.go wrappers and a byte-for-byte generator-freshness diff (its observable consequence - unrouted or misrouted RPCs - is what is checked).",
    "SSA symbolic execution + SMT, symbolic scheduler, native replay"),
  "C20": ("DESIGN.md 5/C20",
-   "Kernels of the trait models executed symbolically: parent traitUnion/traitRemove on sorted symbolic name lists (set algebra), vending updateStock (units, floor at zero, nil-safety, error reporting), unitpb.Convert (identity / category errors), fan speed DeriveValues (table consistency under precedence, no panic for 0..3 presets), mode relativeAdjustment (modular step over full int32), NewModelModes configuration.",
-   "Trusted: symgo, z3, ordinal-string abstraction for names that are only compared. Outside: float rounding in real unit conversion (symbolic FP multiply+divide is undecided by all back ends), md5 of publications, enter/leave, meter, publication and constructor-plumbing clauses not yet encoded.",
+   "Kernels of the trait models executed symbolically: parent traitUnion/traitRemove on sorted symbolic name lists (set algebra), vending updateStock (units, floor at zero, nil-safety, error reporting), unitpb.Convert (identity / category errors), fan speed DeriveValues (table consistency under precedence, no panic for 0..3 presets), mode relativeAdjustment (modular step over full int32), NewModelModes configuration, enter/leave totals, meter RecordReading/Reset times, vending constructor plumbing and DispenseInstantly end to end.",
+   "Trusted: symgo, z3, ordinal-string abstraction for names that are only compared. Outside: float rounding in real unit conversion (symbolic FP multiply+divide is undecided by all back ends), md5/version of publications.",
    "SSA symbolic execution + SMT (BV, FP), native replay"),
 })
 
 CLAIMED.update({
  "C05": ("DESIGN.md 5/C05",
-   "masks.FieldUpdater Validate/Merge (with the real fmutils and fieldmaskpb code interpreted over the protobuf model) on symbolic stored/written messages for enumerated update / writable / reset masks: per-leaf frame and write conditions, rejection of invalid and read-only masks, empty-mask no-op. Groups: scalars (implicit and explicit presence) and nested message leaves, parent+child and duplicate paths.",
+   "masks.FieldUpdater Validate/Merge (with the real fmutils and fieldmaskpb code interpreted over the protobuf model) on symbolic stored/written messages for enumerated update / writable / reset masks: per-leaf frame and write conditions, rejection of invalid and read-only masks, empty-mask no-op. Groups: scalars (implicit and explicit presence), nested message leaves, parent+child and duplicate paths, sibling fields whose names are textual prefixes of each other; two-write sequences through Value/Collection with writable fields and per-write extra writable paths.",
    "Trusted: symgo + protobuf model over generated structs (validated per run against the real library on sampled paths), z3. Bound: masks of <=2 paths from the listed universe, nesting depth 2; oneof/repeated/map groups under update masks not yet encoded; through-resource repetition under C01.",
    "SSA symbolic execution + SMT over a protobuf model, native replay"),
  "C06": ("DESIGN.md 5/C06",
-   "masks.ResponseFilter Filter/FilterClone/Validate on symbolic messages (scalars, optional, nested, repeated scalar and message lists, map, oneof) for 13 read masks incl. nil/empty/parent+child/through-list, plus 7 corrupted masks: result equals the leaf-wise projection, argument never altered, clone shares nothing, Validate rejects, reads never panic.",
-   "Trusted: as C05. Bound: list length <=2, one map entry, the listed masks. Get/List/Pull wiring of the filter is covered under C01/C04 harnesses.",
+   "masks.ResponseFilter Filter/FilterClone/Validate on symbolic messages (scalars, optional, nested, repeated scalar and message lists, map, oneof) for 13 read masks incl. nil/empty/parent+child/through-list, plus 7 corrupted masks: result equals the leaf-wise projection, argument never altered, clone shares nothing, Validate rejects, reads never panic. Resource level: Value Get/Pull, Collection Get/List/Pull (seed, UPDATE old+new, REMOVE old, ADD new) and PullID with 5 read masks against an independent projection, stored messages unchanged.",
+   "Trusted: as C05. Bound: list length <=2, one map entry, the listed masks.",
    "SSA symbolic execution + SMT over a protobuf model, native replay"),
 })
 
 CLAIMED.update({
  "C01": ("DESIGN.md 5/C01",
-   "One arbitrary Set on an arbitrary Value and one arbitrary Get/Add/Update/Delete on an arbitrary Collection (0..2 items, symbolic ids and bodies) with option subsets (update mask x {reset, expected value, expected check ok/fail, before/after interceptor, write time}; create-if-absent, expect-absent, allow-missing, generated ids) against an in-harness reference; failed calls change nothing; List sorted; generated ids non-empty/unused/reported once/usable. A single step from an arbitrary state gives sequences by induction.",
+   "One arbitrary Set on an arbitrary Value and one arbitrary Get/Add/Update/Delete on an arbitrary Collection (0..2 items, symbolic ids and bodies) with option subsets (update mask x {reset, expected value, expected check ok/fail, before/after interceptor, write time}; create-if-absent, expect-absent, allow-missing, generated ids) against an in-harness reference; failed calls change nothing; List sorted; generated ids non-empty/unused/reported once/usable; the same step under an arbitrary two-entry id interceptor (not assumed idempotent) behaves as the plain map at key I(id); generated ids under a canonicalising interceptor are usable. A single step from an arbitrary state gives sequences by induction.",
    "Trusted: symgo + protobuf model + real masks/fmutils code, z3, ordinal ids, arbitrary rng bytes and clock. Bound quick: option subsets of size <=2 plus all six, 5 update masks, bodies with 2 implicit scalars + 1 optional; thorough: all 64 subsets, 3 items.",
    "SSA symbolic execution + SMT vs reference model, native replay"),
  "C04": ("DESIGN.md 5/C04",
    "Real Pull goroutines (bus, listener, forwarder) executed in the symbolic concurrency runtime with a consuming goroutine and one writer under every interleaving: seeds first/sorted/flagged/last-seed, exactly one event per successful write in write order with id, kind, old and new value and write time; none for failed writes; updates-only has no seed; no goroutine outlives the cancelled subscription.",
-   "Trusted: symgo concurrency runtime with sleep-set reduction (DRF between sync ops), protobuf model, z3. Bound: Value 2 writes, Collection 0..2 seed items + 1 write; equivalence suppression and read masks on the stream not yet encoded; event time for writes without WithWriteTime not asserted.",
+   "Trusted: symgo concurrency runtime with sleep-set reduction (DRF between sync ops), protobuf model, z3. Bound: Value 2 writes, Collection 0..2 seed items + 1 write (with and without read mask); equivalence suppression (exact / tolerance / none, with read mask, 2-3 writes); event time for writes without WithWriteTime not asserted.",
    "SSA symbolic execution with symbolic scheduler + SMT, native replay"),
 })
 
 CLAIMED.update({
  "C02": ("DESIGN.md 5/C02",
-   "2 (thorough 3) concurrent writers on one Value/Collection executed in the symbolic concurrency runtime under every interleaving of their lock/unlock/channel operations with symbolic data: delta interceptors lose no increment, compare-and-set admits at most one winner, two Adds of one id never both succeed, Delete-with-expectation vs Update only in legal orders; losers report one of the race statuses.",
+   "2 (thorough 3) concurrent writers on one Value/Collection executed in the symbolic concurrency runtime under every interleaving of their lock/unlock/channel operations with symbolic data: delta interceptors lose no increment, compare-and-set admits at most one winner, two Adds of one id never both succeed, two delta upserts of a possibly absent id lose nothing, Delete-with-expectation vs Update only in legal orders; losers report one of the race statuses.",
    "Trusted: symgo concurrency runtime (RWMutex without writer preference, sleep-set reduction, DRF between sync ops), protobuf model, z3. Counterexamples are confirmed natively by stress replay (up to 400 runs) because the native scheduler cannot be forced without hooks.",
    "SSA symbolic execution with symbolic scheduler + SMT, native stress replay"),
 })
@@ -78,29 +78,29 @@ CLAIMED.update({
 
 CLAIMED.update({
  "C03": ("DESIGN.md 5/C03",
-   "Value.Pull / Collection.Pull subscriptions opened at every possible moment relative to concurrent writers (symbolic scheduler), reader keeps receiving; quiescence by a sentinel write: last delivered value == Get (Value, backpressure, 1 writer x 2 writes and 2 writers x 1 write), lossy Value delivery eventually holds the final value, folded Collection view == List (1 writer, 3-4 operations, both delivery modes).",
-   "Trusted: symgo concurrency runtime with sleep sets, z3. The two-writer stale-end defect (publish after unlock) is recorded as KF-C03-1 and any other violation still alarms. Bound: <=2 writers; PullID, read masks and updates-only are outside.",
+   "Value.Pull / Collection.Pull subscriptions opened at every possible moment relative to concurrent writers (symbolic scheduler), reader keeps receiving; quiescence by a sentinel write: last delivered value == Get (Value, backpressure, 1 writer x 2 writes and 2 writers x 1 write), lossy Value delivery eventually holds the final value, folded Collection view == List (1 writer, 3-5 operations incl. delete/add/delete of one id, both delivery modes); a subscription opened exactly between commit and publication of an Add (window forced through a hook).",
+   "Trusted: symgo concurrency runtime with sleep sets, z3. The publish-after-unlock defects are recorded as KF-C03-1 (two writers, Value) and KF-C03-2 (one writer, Collection, lossy subscriber) and any other violation still alarms. Bound: <=2 writers; PullID, read masks and updates-only are outside.",
    "SSA symbolic execution with symbolic scheduler + SMT, native stress replay"),
 })
 
 CLAIMED.update({
  "C15": ("DESIGN.md 5/C15",
-   "Every paged List RPC body (electric ListModes, hail ListHails, parent ListChildren, publication ListPublications, vending ListConsumables/ListInventory, waste ListWasteRecords) executed for ONE paging step from an arbitrary position: arbitrary sorted symbolic ids (0..4, thorough 6), a token that is empty / names an arbitrary key (present or not) / is malformed, arbitrary int32 page size: contiguity, size cap, total_size, next-token-names-last-item, progress, errors for malformed tokens and negative sizes, no panic; capPageSize over the whole int range. Contiguity + progress give, by induction, every item exactly once and termination.",
+   "Every paged List RPC body (electric ListModes, hail ListHails, parent ListChildren, publication ListPublications, vending ListConsumables/ListInventory, waste ListWasteRecords) executed for ONE paging step from an arbitrary position: arbitrary sorted symbolic ids (0..4, thorough 6), a token that is empty / names an arbitrary key (present or not) / is malformed, arbitrary int32 page size: contiguity, size cap, total_size, next-token-names-last-item, progress, errors for malformed tokens and negative sizes, no panic; capPageSize over the whole int range. Contiguity + progress give, by induction, every item exactly once and termination. Plus whole walks: over-cap page sizes on 1001 items, and ListChildren over concrete mixed-case names (the code's own string functions run on them).",
    "Trusted: symgo, protobuf model, ordinal ids, the page-token codec (proto.Marshal+base64) modelled as an inverse pair on a tagged ordinal, sort.Search/sort.Slice interpreted/modelled, z3. Bound: n<=4 (6) items.",
    "SSA symbolic execution + SMT, inductive single step, native replay"),
 })
 
 CLAIMED.update({
  "C19": ("DESIGN.md 5/C19",
-   "electricpb.Model: one arbitrary operation (CreateMode, AddMode, UpdateMode with mask nil/normal/title, DeleteMode with/without allow-missing, SetActiveMode, ChangeActiveMode, ChangeToNormalMode) with symbolic arguments from an arbitrary invariant-satisfying state (0..3 modes, thorough 4; arbitrary Normal flags and active mode): invariants re-established, documented outcomes (NotFound, allow-missing, start-time stamping with the model clock, clear selects normal). Induction gives every sequence; pairs of conflicting operations under every interleaving for the concurrent clause.",
+   "electricpb.Model: one arbitrary operation (CreateMode, AddMode, UpdateMode with mask nil/normal/title, DeleteMode with/without allow-missing, SetActiveMode, ChangeActiveMode, ChangeToNormalMode) with symbolic arguments from an arbitrary invariant-satisfying state (0..3 modes, thorough 4; arbitrary Normal flags and active mode, whose stored copy may carry a stale Normal flag): invariants re-established, documented outcomes (NotFound, allow-missing, start-time stamping with the model clock, clear selects normal). Induction gives every sequence; pairs of conflicting operations under every interleaving for the concurrent clause.",
    "Trusted: symgo, protobuf model, real resource layer, z3. Mode ids are fixed distinct ordinals (they matter only up to equality/order); the ElectricApi/MemorySettingsApi server wrappers are thin and not separately encoded.",
    "SSA symbolic execution + SMT, inductive single step, symbolic scheduler, native replay"),
 })
 
 CLAIMED.update({
  "C07": ("DESIGN.md 5/C07",
-   "Heap-level isolation on the engine's own store: every message handed out (Get/List/Set/Update/Add/Delete results, model snapshots) is frozen - any later store into a cell or map reachable from it is a violation - and the store must be unaffected when the caller scribbles over a message after writing it; over 3-4 operation sequences on Value, Collection, parent (AddChildTrait/RemoveChildTrait incl. spare-capacity slices), metadata (UpdateTraitMetadata/MergeMetadata) and the enter/leave Pull seed.",
-   "Trusted: symgo heap model (slice capacity growth mirrors the Go runtime's size classes), protobuf model, z3. Natively reproduced by deep-copy-and-compare. Change events' old/new values of the core resources and the other trait models are not yet covered.",
+   "Heap-level isolation on the engine's own store: every message handed out (Get/List/Set/Update/Add/Delete results, model snapshots) is frozen - any later store into a cell or map reachable from it is a violation - and the store must be unaffected when the caller scribbles over a message after writing it; over 3-4 operation sequences on Value, Collection, parent (AddChildTrait/RemoveChildTrait incl. spare-capacity slices), metadata (UpdateTraitMetadata/MergeMetadata), the enter/leave Pull seed, openclose PullPositions under read masks and the electric model's modes (every mode read frozen across two arbitrary later operations).",
+   "Trusted: symgo heap model (slice capacity growth mirrors the Go runtime's size classes), protobuf model, z3. Natively reproduced by deep-copy-and-compare. The remaining trait models (mostly a bare resource.Value) are not encoded one by one.",
    "SSA symbolic execution with heap freeze monitor + SMT, native replay"),
 })
 
